@@ -54,13 +54,14 @@ type Case struct {
 
 // "zq", "zq0", "zq1", "users0": a literal segment that looks like the name hz derives for the
 // second / third occurrence of another segment ("zq" again under another parent becomes _zq0)
-var segs = []string{"a-b", "a_b", "a.b", "A_B", "ab", "1a", "a1", ":id", ":a_b", "*rest", "v1", "v1", "users", "a-b", "a_b", "zq", "zq", "zq0", "zq1", "users0", "zq"}
+var segs = []string{"Users", "Zq", "AB", "a-b", "a_b", "a.b", "A_B", "ab", "1a", "a1", ":id", ":a_b", "*rest", "v1", "v1", "users", "a-b", "a_b", "zq", "zq", "zq0", "zq1", "users0", "zq"}
 var verbs = []string{"GET", "GET", "POST", "PUT", "DELETE", "PATCH", "HEAD", "OPTIONS", "Any"}
 
 func genCase(t *rapid.T) *Case {
 	c := &Case{Update: rapid.IntRange(0, 3).Draw(t, "updateRun") == 0, SortRouter: rapid.Bool().Draw(t, "sortRouter"), SnakeMiddleware: rapid.Bool().Draw(t, "snakeMiddleware"), HandlerByMethod: rapid.IntRange(0, 3).Draw(t, "handlerByMethod") == 0}
 	n := rapid.IntRange(1, 10).Draw(t, "nMethods")
 	seen := map[string]bool{}
+	usedNames := map[string]bool{}
 	for i := 0; i < n; i++ {
 		k := rapid.IntRange(0, 4).Draw(t, "nSegs")
 		p := ""
@@ -82,12 +83,20 @@ func genCase(t *rapid.T) *Case {
 		}
 		seen[v+" "+p] = true
 		name := fmt.Sprintf("H%d", i)
-		switch rapid.IntRange(0, 3).Draw(t, "nameStyle") {
+		switch rapid.IntRange(0, 4).Draw(t, "nameStyle") {
 		case 0:
 			name = fmt.Sprintf("GetUser%d", i)
 		case 1:
 			name = fmt.Sprintf("AB%dHandler", i)
+		case 2:
+			// a function named like a path segment (GET /users -> Users): its middleware name meets
+			// the names hz derives from the path prefixes of the groups
+			cand := rapid.SampledFrom([]string{"Users", "Ab", "V1", "Zq", "Zq0", "A1", "AB", "Users0", "AB0"}).Draw(t, "segmentLikeName")
+			if !usedNames[cand] {
+				name = cand
+			}
 		}
+		usedNames[name] = true
 		if len(c.Methods) > 0 && v != "Any" && c.Methods[len(c.Methods)-1].Verb != "Any" && rapid.IntRange(0, 5).Draw(t, "extraAnnotation") == 0 {
 			// one IDL function, several annotations
 			c.Methods = append(c.Methods, Method{Name: c.Methods[len(c.Methods)-1].Name, Verb: v, Path: p, Extra: true})
